@@ -53,6 +53,15 @@ pub enum Op {
     Clone,
     Switch(u32),
     Fresh,
+    /// open a `lines()` iterator on the current view and keep it alive
+    IterOpen,
+    /// advance live iterator k (mod number of live iterators), compare with the model
+    IterNext(u32),
+    /// drop live iterator k
+    IterDrop(u32),
+    /// `get_line(i)` on the current view, keeping the returned `&str` borrowed until the end of
+    /// the history, where it is validated again (after the index has grown, views were cloned...)
+    HoldLine(u32),
 }
 
 impl Op {
@@ -62,13 +71,22 @@ impl Op {
             Op::Clone => json!({"op": "clone"}),
             Op::Switch(k) => json!({"op": "switch", "slot": k}),
             Op::Fresh => json!({"op": "fresh"}),
+            Op::IterOpen => json!({"op": "iter_open"}),
+            Op::IterNext(k) => json!({"op": "iter_next", "slot": k}),
+            Op::IterDrop(k) => json!({"op": "iter_drop", "slot": k}),
+            Op::HoldLine(i) => json!({"op": "hold_line", "idx": i}),
         }
     }
     fn from_json(v: &Value) -> Option<Op> {
+        let u = |k: &str| v.get(k).and_then(|x| x.as_u64()).map(|x| x as u32);
         match v.get("op")?.as_str()? {
             "clone" => Some(Op::Clone),
-            "switch" => Some(Op::Switch(v.get("slot")?.as_u64()? as u32)),
+            "switch" => Some(Op::Switch(u("slot")?)),
             "fresh" => Some(Op::Fresh),
+            "iter_open" => Some(Op::IterOpen),
+            "iter_next" => Some(Op::IterNext(u("slot")?)),
+            "iter_drop" => Some(Op::IterDrop(u("slot")?)),
+            "hold_line" => Some(Op::HoldLine(u("idx")?)),
             _ => Call::from_json(v).map(Op::Call),
         }
     }
@@ -81,6 +99,19 @@ impl Op {
                 h.u64(*k as u64)
             }
             Op::Fresh => h.u64(102),
+            Op::IterOpen => h.u64(103),
+            Op::IterNext(k) => {
+                h.u64(104);
+                h.u64(*k as u64)
+            }
+            Op::IterDrop(k) => {
+                h.u64(105);
+                h.u64(*k as u64)
+            }
+            Op::HoldLine(i) => {
+                h.u64(106);
+                h.u64(*i as u64)
+            }
         }
     }
 }
@@ -91,9 +122,63 @@ pub struct History {
     pub ops: Vec<Op>,
 }
 
-const ALPHA: [&str; 8] = ["a", "é", "€", "👌", " ", "\n", "\r", "\r\n"];
+// the first eight are the working alphabet; the rest are characters that *other* conventions treat
+// as line breaks or strip (U+2028/2029, NEL, VT, FF), plus tab, NUL and U+FEFF: none of them is a
+// terminator here
+const ALPHA: [&str; 16] = ["a", "é", "€", "👌", " ", "\n", "\r", "\r\n", "\u{2028}", "\u{2029}", "\u{85}", "\x0b", "\x0c", "\t", "\0", "\u{feff}"];
 
 fn gen_text(rng: &mut Rng) -> String {
+    // special shapes first (each rare)
+    match rng.below(1000) {
+        0..=9 => {
+            // long lines: few terminators, hundreds to tens of thousands of pieces per line, with
+            // astral characters planted at units 255, 4095 and 65535 where they fit
+            let lines = 1 + rng.below(3);
+            let mut t = String::new();
+            for l in 0..lines {
+                let len = *rng.pick(&[300usize, 1000, 5000, 70_000]);
+                let filler = *rng.pick(&["a", "a", "é", "ab "]);
+                let mut units = 0usize;
+                while units < len {
+                    if units == 255 || units == 4095 || units == 65_535 || rng.chance(1, 997) {
+                        t.push('👌');
+                        units += 2;
+                    } else {
+                        t.push_str(filler);
+                        units += filler.chars().count();
+                    }
+                }
+                if l + 1 < lines {
+                    t.push_str(*rng.pick(&["\n", "\r\n", "\r"]));
+                }
+            }
+            return t;
+        }
+        10..=19 => {
+            // line counts equal to a power of two (+-1): the sizes internal batches are made of;
+            // a \r\n planted across a power-of-two byte offset now and then
+            let k = 6 + rng.below(7) as u32;
+            let lines = ((1i64 << k) + *rng.pick(&[-1i64, 0, 1])) as usize;
+            let mut t = String::new();
+            for i in 0..lines {
+                t.push_str(*rng.pick(&["", "a", "bb"]));
+                if i + 1 < lines {
+                    if t.len() % 64 == 63 && rng.chance(1, 2) {
+                        t.push_str("\r\n");
+                    } else {
+                        t.push_str(*rng.pick(&["\n", "\n", "\r\n", "\r"]));
+                    }
+                }
+            }
+            return t;
+        }
+        20 => {
+            // huge: more than 65536 lines / bytes
+            let unit = *rng.pick(&["\n", "a\n", "\r\n"]);
+            return unit.repeat(rng.range_usize(66_000, 71_000));
+        }
+        _ => {}
+    }
     // mostly tiny; 2 % long (hundreds of pieces) and 0.3 % very long (thousands): an
     // implementation may index in batches (64, 256, 1024 lines ...), and a text shorter than the
     // batch never leaves the first one
@@ -108,7 +193,8 @@ fn gen_text(rng: &mut Rng) -> String {
     // per-text terminator density (swarm): sparse, medium, dense
     let term_w = *rng.pick(&[2u32, 6, 14]);
     let astral_w = *rng.pick(&[1u32, 4, 10]);
-    let weights = [10, 4, 3, astral_w, 2, term_w, term_w, term_w];
+    let odd_w = *rng.pick(&[0u32, 0, 1, 3]);
+    let weights = [10, 4, 3, astral_w, 2, term_w, term_w, term_w, odd_w, odd_w, odd_w, odd_w, odd_w, odd_w, odd_w, odd_w];
     let mut t = String::new();
     for _ in 0..len {
         t.push_str(ALPHA[rng.weighted(&weights)]);
@@ -143,7 +229,16 @@ fn gen_call(rng: &mut Rng, model: &RefView) -> Call {
         4 => {
             let l = line_idx(rng);
             let units = model.line_units(l).unwrap_or(3) as u32;
-            let small = |rng: &mut Rng| rng.below(units as u64 + 3) as u32;
+            let small = |rng: &mut Rng| {
+                if units > 64 && rng.chance(1, 3) {
+                    // inside a long line: around powers of two and around the planted astral
+                    // characters, where cached cursors and block scanners change regime
+                    let base = *rng.pick(&[15u32, 16, 63, 64, 254, 255, 256, 4094, 4095, 4096, 65_534, 65_535, 65_536]);
+                    (base + rng.below(3) as u32).min(units + 2)
+                } else {
+                    rng.below(units as u64 + 3) as u32
+                }
+            };
             let c = if rng.chance(1, 12) { *rng.pick(&BIG) } else { small(rng) };
             let s = if rng.chance(1, 12) { *rng.pick(&BIG) } else { small(rng) };
             Call::GetLineSlice(l, c, s)
@@ -169,13 +264,43 @@ pub fn gen(rng: &mut Rng) -> History {
         _ => {}
     }
     while ops.len() < nops {
-        let op = match rng.weighted(&[86, 6, 5, 3]) {
+        let op = match rng.weighted(&[78, 6, 5, 3, 2, 3, 1, 2]) {
             0 => Op::Call(gen_call(rng, &model)),
             1 => Op::Clone,
             2 => Op::Switch(rng.below(4) as u32),
-            _ => Op::Fresh,
+            3 => Op::Fresh,
+            4 => Op::IterOpen,
+            5 => Op::IterNext(rng.below(3) as u32),
+            6 => Op::IterDrop(rng.below(3) as u32),
+            _ => Op::HoldLine(rng.below(n as u64 + 1) as u32),
         };
         ops.push(op);
+    }
+    // access patterns that single random requests never form: an ascending or descending run of
+    // lines, or one line sliced at rising and falling columns (memo / cursor caches live here)
+    if rng.chance(1, 12) {
+        let start = rng.below(n as u64) as u32;
+        let len = rng.range(8, 40) as u32;
+        match rng.below(3) {
+            0 => {
+                for k in 0..len {
+                    ops.push(Op::Call(Call::GetLine(start.saturating_add(k))));
+                }
+            }
+            1 => {
+                for k in 0..len {
+                    ops.push(Op::Call(Call::GetLine(start.saturating_sub(k))));
+                }
+            }
+            _ => {
+                let units = model.line_units(start).unwrap_or(0) as u32;
+                let mut c = rng.below(units as u64 + 1) as u32;
+                for k in 0..len {
+                    ops.push(Op::Call(Call::GetLineSlice(start, c, 1 + k % 3)));
+                    c = if k % 5 == 4 { c.saturating_sub(3) } else { (c + 1 + rng.below(2) as u32).min(units + 1) };
+                }
+            }
+        }
     }
     if rng.chance(1, 4) {
         ops.push(Op::Call(Call::LineCount)); // counting after
@@ -247,42 +372,169 @@ fn slice_classes(model: &RefView, l: u32, c: u32, n: u32, out: &mut Vec<&'static
     }
 }
 
+/// Views live behind stable heap pointers for the length of a history, so that iterators and
+/// borrowed lines can outlive later pushes to the slot table; everything borrowed is dropped
+/// before the views are freed at the end of `execute`.
+struct Arena {
+    ptrs: Vec<*mut RealView>,
+}
+
+impl Arena {
+    fn push(&mut self, v: RealView) -> usize {
+        self.ptrs.push(Box::into_raw(Box::new(v)));
+        self.ptrs.len() - 1
+    }
+    fn get(&self, i: usize) -> &'static RealView {
+        // SAFETY: the box is freed only in `Drop`, after every borrower has been dropped
+        unsafe { &*self.ptrs[i] }
+    }
+}
+
+impl Drop for Arena {
+    fn drop(&mut self) {
+        for p in self.ptrs.drain(..) {
+            // SAFETY: created by Box::into_raw in `push`, freed once
+            unsafe { drop(Box::from_raw(p)) };
+        }
+    }
+}
+
+struct LiveIter {
+    it: Box<dyn Iterator<Item = &'static str>>,
+    cursor: u32,
+    slot: usize,
+}
+
 pub fn execute(h: &History) -> Exec {
     let model = RefView::new(&h.text);
     let n = model.line_count() as u32;
-    let mut views: Vec<RealView> = vec![RealView::new_view(&h.text)];
+    // one Arc<str> kept by the caller and shared by every second fresh view
+    let shared: std::sync::Arc<str> = h.text.as_str().into();
+    let mut arena = Arena { ptrs: Vec::new() };
+    arena.push(RealView::new_view(&h.text));
     // model-inferred number of cached lines per slot
     let mut cached: Vec<u32> = vec![0];
     let mut cur = 0usize;
-    let mut fresh_toggle = false;
+    let mut fresh_count = 0u32;
     let mut eh = H64::new();
     let mut facts = Facts::default();
     let mut results = Vec::with_capacity(h.ops.len());
-    let mut verdict = None;
-    for (k, op) in h.ops.iter().enumerate() {
+    let mut verdict: Option<(String, String)> = None;
+    let mut iters: Vec<LiveIter> = Vec::new();
+    let mut held: Vec<(u32, usize, Option<&'static str>)> = Vec::new();
+    let take_panic = || panics::take().unwrap_or(panics::PanicInfo { file: "<unknown>".into(), line: 0, msg: "?".into() });
+    'ops: for (k, op) in h.ops.iter().enumerate() {
         match op {
             Op::Clone => {
-                let v = views[cur].clone_view();
-                views.push(v);
+                let v = arena.get(cur).clone_view();
+                cur = arena.push(v);
                 cached.push(0);
-                cur = views.len() - 1;
                 results.push(None);
             }
             Op::Switch(s) => {
-                cur = *s as usize % views.len();
+                cur = *s as usize % arena.ptrs.len();
                 results.push(None);
             }
             Op::Fresh => {
-                fresh_toggle = !fresh_toggle;
-                let v = if fresh_toggle {
-                    RealView(SourceView::from_string(h.text.clone()))
-                } else {
-                    RealView::new_view(&h.text)
+                fresh_count += 1;
+                let v = match fresh_count % 3 {
+                    0 => RealView(SourceView::from_string(h.text.clone())),
+                    1 => RealView(SourceView::new(shared.clone())),
+                    _ => RealView::new_view(&h.text),
                 };
-                views.push(v);
+                cur = arena.push(v);
                 cached.push(0);
-                cur = views.len() - 1;
                 results.push(None);
+            }
+            Op::IterOpen => {
+                if iters.len() < 4 {
+                    let view = arena.get(cur);
+                    iters.push(LiveIter { it: Box::new(view.0.lines()), cursor: 0, slot: cur });
+                }
+                results.push(None);
+            }
+            Op::IterDrop(j) => {
+                if !iters.is_empty() {
+                    let j = *j as usize % iters.len();
+                    iters.remove(j);
+                }
+                results.push(None);
+            }
+            Op::IterNext(j) => {
+                if iters.is_empty() {
+                    results.push(None);
+                    continue;
+                }
+                let j = *j as usize % iters.len();
+                facts.calls += 1;
+                let li = &mut iters[j];
+                let before = cached[li.slot];
+                if before > 0 && before < n {
+                    facts.partly_indexed_calls += 1;
+                }
+                panics::clear();
+                let got = catch_unwind(AssertUnwindSafe(|| li.it.next().map(simcore::refview::own)));
+                let want = model.line(li.cursor).map(str::to_owned);
+                match got {
+                    Ok(g) => {
+                        let res = Res::Line(g.clone());
+                        res.hash_into(&mut eh);
+                        if g != want {
+                            let sig = format!("mismatch:lines_next:{}-for-{}", if g.is_some() { "Some" } else { "None" }, if want.is_some() { "Some" } else { "None" });
+                            let detail = format!(
+                                "op #{k}: live lines() iterator on view slot {} at position {} returned {:?}; the text's definition gives {:?}; text {:?}",
+                                li.slot, li.cursor, g, want, h.text
+                            );
+                            results.push(Some(res));
+                            verdict = Some((sig, detail));
+                            break 'ops;
+                        }
+                        if want.is_some() {
+                            li.cursor += 1;
+                            cached[li.slot] = cached[li.slot].max(li.cursor.min(n));
+                        } else {
+                            cached[li.slot] = n;
+                        }
+                        results.push(Some(res));
+                    }
+                    Err(_) => {
+                        let p = take_panic();
+                        eh.str(&p.msg);
+                        verdict = Some((panics::signature(&p), format!("op #{k}: live lines() iterator panicked: {} at {}:{}; text {:?}", p.msg, p.file, p.line, h.text)));
+                        results.push(None);
+                        break 'ops;
+                    }
+                }
+            }
+            Op::HoldLine(i) => {
+                facts.calls += 1;
+                let view = arena.get(cur);
+                panics::clear();
+                let got = catch_unwind(AssertUnwindSafe(|| view.0.get_line(*i)));
+                match got {
+                    Ok(g) => {
+                        let want = model.line(*i).map(str::to_owned);
+                        let owned = g.map(simcore::refview::own);
+                        let res = Res::Line(owned.clone());
+                        res.hash_into(&mut eh);
+                        cached[cur] = cached[cur].max((*i as u64 + 1).min(n as u64) as u32);
+                        if owned != want {
+                            let sig = mismatch_sig(&model, &Call::GetLine(*i), &res, &Res::Line(want.clone()));
+                            verdict = Some((sig, format!("op #{k} HoldLine({i}) on view slot {cur} returned {:?}; the text's definition gives {:?}; text {:?}", owned, want, h.text)));
+                            results.push(Some(res));
+                            break 'ops;
+                        }
+                        held.push((*i, cur, g));
+                        results.push(Some(res));
+                    }
+                    Err(_) => {
+                        let p = take_panic();
+                        eh.str(&p.msg);
+                        verdict = Some((panics::signature(&p), format!("op #{k} HoldLine({i}) panicked: {} at {}:{}; text {:?}", p.msg, p.file, p.line, h.text)));
+                        results.push(None);
+                        break 'ops;
+                    }
+                }
             }
             Op::Call(call) => {
                 facts.calls += 1;
@@ -303,7 +555,7 @@ pub fn execute(h: &History) -> Exec {
                     slice_classes(&model, *l, *c, *s, &mut facts.classes);
                 }
                 panics::clear();
-                let view = &views[cur];
+                let view = arena.get(cur);
                 let got = catch_unwind(AssertUnwindSafe(|| apply(view, call)));
                 let want = model.answer(call);
                 match got {
@@ -313,27 +565,49 @@ pub fn execute(h: &History) -> Exec {
                             let sig = mismatch_sig(&model, call, &res, &want);
                             let detail = format!(
                                 "op #{k} {:?} on view slot {cur} (model: {before} of {n} lines cached) returned {:?}; the text's definition gives {:?}; text {:?}",
-                                call, res, want, h.text
+                                call,
+                                res,
+                                want,
+                                if h.text.len() > 300 { format!("{}... ({} bytes)", h.text.chars().take(120).collect::<String>(), h.text.len()) } else { h.text.clone() }
                             );
                             results.push(Some(res));
                             verdict = Some((sig, detail));
-                            break;
+                            break 'ops;
                         }
                         results.push(Some(res));
                     }
                     Err(_) => {
-                        let p = panics::take().unwrap_or(panics::PanicInfo { file: "<unknown>".into(), line: 0, msg: "?".into() });
+                        let p = take_panic();
                         eh.str(&p.msg);
                         let sig = panics::signature(&p);
-                        let detail = format!("op #{k} {:?} panicked: {} at {}:{}; text {:?}", call, p.msg, p.file, p.line, h.text);
+                        let detail = format!("op #{k} {:?} panicked: {} at {}:{}; text of {} bytes", call, p.msg, p.file, p.line, h.text.len());
                         results.push(None);
                         verdict = Some((sig, detail));
-                        break;
+                        break 'ops;
                     }
                 }
             }
         }
     }
+    // borrowed lines must still say what they said (the index has grown, views were cloned and
+    // created since); then everything borrowed goes before the views do
+    if verdict.is_none() {
+        for (i, slot, s) in &held {
+            let now = s.map(simcore::refview::own);
+            let want = model.line(*i).map(str::to_owned);
+            if now != want {
+                verdict = Some((
+                    "held-line-changed".to_string(),
+                    format!("the &str returned earlier by get_line({i}) on view slot {slot} now reads {:?}; the text's definition gives {:?}", now, want),
+                ));
+                break;
+            }
+        }
+    }
+    eh.u64(held.len() as u64);
+    drop(held);
+    drop(iters);
+    drop(arena);
     Exec { verdict, event_hash: eh.finish(), facts, results }
 }
 
@@ -404,6 +678,10 @@ fn one_run(acc: &mut Acc, base_seed: u64, i: u64, det_n: u64) {
             Op::Clone => *acc.structural.entry("clone").or_default() += 1,
             Op::Switch(_) => *acc.structural.entry("switch").or_default() += 1,
             Op::Fresh => *acc.structural.entry("fresh").or_default() += 1,
+            Op::IterOpen => *acc.structural.entry("iter_open").or_default() += 1,
+            Op::IterNext(_) => *acc.structural.entry("iter_next").or_default() += 1,
+            Op::IterDrop(_) => *acc.structural.entry("iter_drop").or_default() += 1,
+            Op::HoldLine(_) => *acc.structural.entry("hold_line").or_default() += 1,
         }
     }
     let mut d = H64::new();
@@ -633,7 +911,7 @@ pub fn main(args: &Args) -> i32 {
                 probe_fail.push(must.to_string());
             }
         }
-        for must in ["clone", "switch", "fresh"] {
+        for must in ["clone", "switch", "fresh", "iter_open", "iter_next", "hold_line"] {
             if acc.structural.get(must).copied().unwrap_or(0) == 0 {
                 probe_fail.push(must.to_string());
             }
@@ -651,7 +929,7 @@ pub fn main(args: &Args) -> i32 {
         "coverage": {
             "evaluations": acc.runs,
             "distinct_nontrivial": nontrivial,
-            "rule": "one evaluation = one seeded history (text over {a, é, €, 👌, space, \\n, \\r, \\r\\n}, 1..13 operations: get_line / line_count / lines / lines abandoned after k / get_line_slice / source / clone / switch view / fresh view) executed against the real SourceView and compared call by call with RefView; distinct = distinct (text, history) by 64-bit hash; non-trivial = at least two calls and at least one call served by a view that the model says was partly indexed at that moment (so the answer depends on what was asked before)",
+            "rule": "one evaluation = one seeded history (text over {a, é, €, 👌, space, \\n, \\r, \\r\\n}, 1..13 operations, sometimes followed by a 8..40-call access pattern: get_line / line_count / lines / lines abandoned after k / get_line_slice / source / clone / switch view / fresh view / live lines() iterators advanced between other calls / lines kept borrowed and re-validated at the end) executed against the real SourceView and compared call by call with RefView; distinct = distinct (text, history) by 64-bit hash; non-trivial = at least two calls and at least one call served by a view that the model says was partly indexed at that moment (so the answer depends on what was asked before)",
             "samples": acc.samples.iter().map(|s| s.1.clone()).collect::<Vec<_>>(),
             "distinct_histories": distinct,
             "calls_checked": acc.calls,
